@@ -12,6 +12,11 @@ DESCR = {
                          "generated/DriverGen.v; the refinement generated code -> model (proofs/DriverTie.v, for all arguments) is "
                          "compiled with the property's theorem file; one case per translated function"),
     "translate_core": ("G:tracker source translator", "see core_units.g_unit"),
+    "translate_results": ("G:results-manager source translator",
+                          "ast translation (harness/pytrans.py, fail-closed) of the closure ResultsManager.score(objective)._wrapper(pos) of "
+                          "_results_manager.py into generated/ResGen.v; _obj_func_results, __init__ and search_data are pinned by digest, the row "
+                          "expression `{**results_dict, **para}` and `results_dict['score']` by their text; proofs/ResTie.v proves that the "
+                          "generated wrapper around the generated memory wrapper / the raw objective is the model's inner_score"),
     "translate_memory": ("G:memory source translator",
                          "ast translation (harness/pytrans.py, fail-closed) of the closure Memory.memory(objective).wrapper(para) of _memory.py "
                          "into generated/MemGen.v (dictionary membership / lookup / update on position-tuple keys, the converter calls are the "
@@ -54,7 +59,7 @@ def g_unit(ctx, modname):
     return u
 
 
-ALL_TRANSLATORS = ["translate_core", "translate_driver", "translate_grid", "translate_search", "translate_memory"]
+ALL_TRANSLATORS = ["translate_core", "translate_driver", "translate_grid", "translate_search", "translate_memory", "translate_results"]
 
 
 def refresh_all(ctx):
